@@ -5,7 +5,7 @@ from ..model import rs_str
 
 class AgreeUnit(Unit):
     rule = ('enumerated: field-less enums (all four derives) and payload/generic enums (COUNT, iter, VariantNames) of 1..8 variants x explicit discriminants x '
-            'naming attributes / serialize_all / prefix x disabled placement (quick: 6 programs; thorough: + 30 systematic)')
+            'naming attributes / serialize_all / prefix x disabled placement + 255 / 256 variants (quick: 11 programs; thorough: + 30 systematic)')
     assumptions = (
         'Iterator::count() is std\'s default method on top of the verified next(); the lemma shows len() == COUNT and the i-th next() item',
         'rewrites R1, R3, R4 (VariantNames / VariantArray slice consts hoisted to module-level exec consts), R7',
@@ -36,7 +36,7 @@ class AgreeUnit(Unit):
         L.append('    let mut it = %s::iter();' % tp)
         L.append('    let n = it.len();')
         L.append('    assert(n == %s::COUNT && n == %d);' % (tp, len(en)))
-        if len(en) == nd:
+        if len(en) == nd and nd <= 40:   # stepping through the iterator item by item is kept for small enums; the contracts carry the claim for large ones
             for i, v in enumerate(prog.variants):
                 L.append('    let x%d = it.next();' % i)
                 L.append('    assert(x%d is Some && var_ok(%d, x%d->Some_0));' % (i, i, i))
